@@ -1,53 +1,78 @@
-/* C12 "numbers survive text" -- the clauses this technique can decide (see props_meta.json C12 for the ones it cannot):
- *   UNIT_PN      parseNumber(const char*) on symbolic NUL-terminated strings held in exactly-sized heap blocks
- *                (make_float<double/float> replaced by precondition-checking stubs in the CBMC build; the native replay
- *                build runs the real make_float and compares the final result with libc strtod):
- *                  - integer literals in [-2^63, 2^64) parse to exactly that integer, any number of leading zeros
- *                  - integer literals beyond that range keep their decimal magnitude          (fails today: 2^64 .. 2^64+3)
- *                  - the (mantissa, exponent) pair handed to make_float denotes the literal's decimal magnitude
- *                  - make_float's table precondition |e| <= 511 (double) / 63 (float) at every call site
- *                  - the float path is taken only when the value fits a float                      (fails today: 10e38)
- *                  - the early exits of the exponent loop: +/-0 only below 1e-300        (fails today: 1000000000e-309),
- *                    +/-inf only above 1e300
- *                  - a digit string longer than the power table can express                (fails today: 1 + >=526 zeros)
- *                  - grammar: accepted exactly [+-]? (digits ('.' digits?)? | '.' digits) ([eE][+-]?digits)?
- *                  - the scan reads only up to the first NUL
- *   UNIT_PNLOOP  the same routine with every loop cut by a loop contract: strings of ANY length
+/* C12 "numbers survive text" -- the clauses this technique can decide (see props_meta.json C12 for the ones it cannot).
+ *   UNIT_PNLOOP  parseNumber(const char*) with each of its five loops cut by a loop contract (parsenumber.loops.json): one
+ *                arbitrary iteration per loop, so the cost does not grow with the string.  The string is symbolic, held in a
+ *                heap block of exactly length+1 bytes; its length is bounded only by the ghost tables of the harness (PN_N,
+ *                64 = every literal a document can hold, its buffer being 64 bytes; 700 for the long-string obligations).
+ *   UNIT_PN      the same routine with the loops unwound, on short strings / concrete families: gives the concrete,
+ *                natively replayable inputs for the checks that fail, and cross-checks the contracts of UNIT_PNLOOP.
+ *   In both, make_float<double/float> are replaced by precondition-checking stubs in the CBMC build; the native replay
+ *   build runs the real make_float and compares the final result with libc strtod.
+ *     - integer literals in [-2^63, 2^64) parse to exactly that integer, any number of leading zeros
+ *     - integer literals beyond that range keep their decimal magnitude                    (fails today: 2^64 .. 2^64+3 ...)
+ *     - the (mantissa, exponent) pair handed to make_float denotes the literal's decimal magnitude
+ *     - make_float's table precondition |e| <= 511 (double) / 63 (float) at every call site   (fails today: long strings)
+ *     - the float path is taken only when the value fits a float                                    (fails today: 10e38)
+ *     - the early exits of the exponent loop: +/-0 only below 1e-300 (fails today: 1000000000e-309), +/-inf only above 1e300
+ *     - grammar: accepted exactly [+-]? (digits ('.' digits?)? | '.' digits) ([eE][+-]?digits)?
+ *     - the scan reads only up to the first NUL
  *   UNIT_MF      make_float<double,int> / make_float<float,int> alone: table bounds for every e under the precondition;
  *                the 9 + 9 + 6 + 6 table entries are the floating literals 1e+-2^i
  *   UNIT_CONVTO  Number::convertTo<T> (10 T): the switch hands the stored member to convertNumber<T, that member's type>;
  *                parseNumber<T>(s) == parseNumber(s).convertTo<T>()
- *   UNIT_SETFLOAT VariantData::setFloat(double): stored as float exactly when float(value) == value
- * Oracles: an independent scanner of the literal written below from the grammar and positional notation (spec_scan), integer
- * arithmetic in unsigned __int128, decimal digit counts.  The accuracy bounds 1e-6 / 1e-13 / 1e-9 of C12 are floating-point
- * error analyses of make_float / decomposeFloat and are NOT attempted here. */
+ * Oracles: an independent reading of the literal written below from the grammar and positional notation (spec_scan):
+ * positions of the digit groups, prefix values in unsigned __int128, decimal digit counts.  The accuracy bounds
+ * 1e-6 / 1e-13 / 1e-9 of C12 are floating-point error analyses of make_float / decomposeFloat and are NOT attempted. */
 #include "verif.h"
-#ifdef VERIF_NATIVE
-#include <math.h>
-#include "lowered_types.h"
-#else
-#if defined(UNIT_PNLOOP)
-/* ghosts named by the loop contracts of parsenumber.loops.json (must be declared before the lowered text) */
-static char *g_str;      /* the string under scan */
-static size_t g_len;     /* its length: g_str[g_len] == 0 is the first NUL */
-#endif
-#include "lowered.c"
-#endif
 
 typedef unsigned __int128 u128;
 typedef __int128 i128;
 /* NumberType, in the order of the enum class of parseNumber.hpp */
 enum { NT_INVALID = 0, NT_FLOAT = 1, NT_SIGNED = 2, NT_UNSIGNED = 3, NT_DOUBLE = 4 };
 
+#if defined(UNIT_PN) || defined(UNIT_PNLOOP)
+#ifndef PN_N
+#define PN_N 16 /* bound on the length of the symbolic string of an obligation (set per obligation in units/parsenumber.json) */
+#endif
+/* ---- ghosts: how the grammar cuts the string (offsets), what the digit groups denote ---------------------------------
+ *   [0,a0) sign   [a0,a1) integer digits   '.'?   [b0,b1) fraction digits   ([eE][+-]?)?   [c0,c1) exponent digits
+ * every offset is defined for every string (a group may be empty; the cut stops at the first character that fits nowhere) */
+static char *g_str;  /* the string under scan */
+static size_t g_len; /* its length: g_str[g_len] is the first NUL */
+static size_t g_a0, g_a1, g_b0, g_b1, g_c0, g_c1;
+static size_t g_lead;            /* offset of the first non-zero mantissa digit (integer or fraction part), PN_N + 8 if there is none */
+static long g_pm;                /* mantissa digits alone denote a value in [10^pm, 10^(pm+1)) (when there is a non-zero digit) */
+static u128 g_P[PN_N + 2];       /* g_P[k], a0 <= k <= a1: value of the integer digits [a0,k) (stops growing beyond 2^100) */
+static long g_E[PN_N + 2];       /* g_E[k], c0 <= k <= c1: value of the exponent digits [c0,k) (stops growing beyond 10^9) */
+/* a value m has j decimal digits (j = 0: m == 0) exactly when g_lo[j] <= m <= g_hi[j] */
+static const uint64_t g_lo[21] = {0ull, 1ull, 10ull, 100ull, 1000ull, 10000ull, 100000ull, 1000000ull, 10000000ull, 100000000ull,
+  1000000000ull, 10000000000ull, 100000000000ull, 1000000000000ull, 10000000000000ull, 100000000000000ull, 1000000000000000ull,
+  10000000000000000ull, 100000000000000000ull, 1000000000000000000ull, 10000000000000000000ull};
+static const uint64_t g_hi[21] = {0ull, 9ull, 99ull, 999ull, 9999ull, 99999ull, 999999ull, 9999999ull, 99999999ull, 999999999ull,
+  9999999999ull, 99999999999ull, 999999999999ull, 9999999999999ull, 99999999999999ull, 999999999999999ull, 9999999999999999ull,
+  99999999999999999ull, 999999999999999999ull, 9999999999999999999ull, 18446744073709551615ull};
+
+/* ---- vocabulary of the loop contracts (parsenumber.loops.json; they name locals of the lowered parseNumber) ------------ */
+#define OFF(p) ((size_t)__CPROVER_POINTER_OFFSET(p))
+#define IN_STR(p, lo, hi) (__CPROVER_same_object((p), g_str) && OFF(p) >= (lo) && OFF(p) <= (hi))
+/* digits the mantissa must have when `rem` integer digits are still unread and the exponent offset is eo:
+ * (digits - 1) + eo + rem == g_pm */
+#define DJ(eo, rem) (g_pm + 1 - (long)(eo) - (long)(rem))
+#define HAS_DIGITS(m, j) ((j) >= 1 && (j) <= 20 && g_lo[(j)] <= (m) && (m) <= g_hi[(j)])
+#define MAG(m, eo, rem) ((m) == 0 || HAS_DIGITS((m), DJ((eo), (rem))))
+#endif
+
+#ifdef VERIF_NATIVE
+#include <math.h>
+#include "lowered_types.h"
+#else
+#include "lowered.c"
+#endif
+
 static uint32_t f32_bits(float f) { uint32_t b; memcpy(&b, &f, 4); return b; }
 static uint64_t f64_bits(double f) { uint64_t b; memcpy(&b, &f, 8); return b; }
 
 /* ================================================================================================================ */
 #if defined(UNIT_PN) || defined(UNIT_PNLOOP)
-
-#ifndef PN_N
-#define PN_N 16 /* bound on the length of the symbolic string of an obligation (set per obligation in units/parsenumber.json) */
-#endif
 
 /* ---- independent reading of a literal ---------------------------------------------------------------------------- */
 struct lit_info {
@@ -59,47 +84,76 @@ struct lit_info {
   u128 V;           /* value of the integer-part digits */
   _Bool nonzero;    /* some mantissa digit is not 0, i.e. v != 0 */
   _Bool pow10;      /* the leading non-zero digit is 1 and every other mantissa digit is 0: |v| is a power of ten */
-  int64_t p;        /* 10^p <= |v| < 10^(p+1) when nonzero */
+  long p;           /* 10^p <= |v| < 10^(p+1) when nonzero */
+  _Bool eneg, has_dot, has_e;
   unsigned nint, nfrac, nexp;
+  _Bool f4_family;  /* the integer digits pass through 1844674407370955161 followed by a digit >= 6 (2^64 .. 2^64+3, and longer) */
 };
-enum { S0, S1, S2, S3, S5, S6, S7, SBAD };
+/* one pass, left to right; phases: 1 integer digits, 2 fraction digits, 3 just behind the exponent marker, 4 exponent digits, 5 stopped */
 static void spec_scan(const char *s, size_t n, struct lit_info *o) {
-  unsigned st = S0;
-  _Bool neg = 0, eneg = 0, lead = 0, rest = 0, vsat = 0;
-  unsigned nint = 0, nfrac = 0, nexp = 0, lead_idx = 0, lead_digit = 0, ndig = 0;
-  u128 V = 0;
-  int64_t E = 0;
+  _Bool neg = n > 0 && s[0] == '-';
+  size_t a0 = (n > 0 && (s[0] == '+' || s[0] == '-')) ? 1 : 0;
+  size_t a1 = 0, b0 = 0, b1 = 0, c0 = 0, c1 = 0, lead = PN_N + 8;
+  unsigned ph = 1, nint = 0, nfrac = 0, nexp = 0, lead_digit = 0;
+  _Bool eneg = 0, rest = 0, vsat = 0, has_dot = 0, has_e = 0, f4 = 0;
+  _Bool first_ok = a0 < n && ((s[a0] >= '0' && s[a0] <= '9') || s[a0] == '.');
+  for (unsigned k = 0; k <= PN_N; k++) { g_P[k] = 0; g_E[k] = 0; }
   for (unsigned k = 0; k < PN_N; k++) {
-    if (k < n) {
+    if (k >= a0 && k < n && ph != 5) {
       char ch = s[k];
       _Bool dig = ch >= '0' && ch <= '9', dot = ch == '.', ee = ch == 'e' || ch == 'E', sg = ch == '+' || ch == '-';
       unsigned d = dig ? (unsigned)(ch - '0') : 0u;
       _Bool mant = 0;
-      if (st == S0 && sg) { neg = ch == '-'; st = S1; }
-      else if ((st == S0 || st == S1 || st == S2) && dig) { st = S2; nint++; mant = 1; if (V >> 100) vsat = 1; else V = V * 10 + d; }
-      else if ((st == S0 || st == S1 || st == S2) && dot) st = S3;
-      else if (st == S3 && dig) { nfrac++; mant = 1; }
-      else if ((st == S2 || st == S3) && ee) st = S5;
-      else if (st == S5 && sg) { eneg = ch == '-'; st = S6; }
-      else if ((st == S5 || st == S6 || st == S7) && dig) { st = S7; nexp++; E = E * 10 + d; if (E > 1000000000) E = 1000000000; }
-      else st = SBAD;
+      if (ph == 1) {
+        if (dig) {
+          nint++; mant = 1;
+          if (g_P[k] == 1844674407370955161ull && d >= 6) f4 = 1;
+          if (g_P[k] >> 100) { vsat = 1; g_P[k + 1] = g_P[k]; } else g_P[k + 1] = g_P[k] * 10 + d;
+        } else {
+          a1 = k;
+          if (dot) { has_dot = 1; b0 = k + 1; ph = 2; }
+          else { b0 = b1 = k; if (ee) { has_e = 1; ph = 3; } else { c0 = c1 = k; ph = 5; } }
+        }
+      } else if (ph == 2) {
+        if (dig) { nfrac++; mant = 1; }
+        else { b1 = k; if (ee) { has_e = 1; ph = 3; } else { c0 = c1 = k; ph = 5; } }
+      } else if (ph == 3) {
+        if (sg) { eneg = ch == '-'; c0 = k + 1; ph = 4; }
+        else if (dig) { c0 = k; nexp++; g_E[k + 1] = d; ph = 4; }
+        else { c0 = c1 = k; ph = 5; }
+      } else { /* ph == 4 */
+        if (dig) { nexp++; g_E[k + 1] = g_E[k] > 1000000000 ? g_E[k] : g_E[k] * 10 + d; }
+        else { c1 = k; ph = 5; }
+      }
       if (mant) {
-        if (!lead) { if (d) { lead = 1; lead_digit = d; lead_idx = ndig; } }
+        if (lead > PN_N) { if (d) { lead = k; lead_digit = d; } }
         else if (d) rest = 1;
-        ndig++;
       }
     }
   }
-  o->strict = (st == S2 || st == S3 || st == S7) && nint + nfrac >= 1;
-  o->lenient = st == S2 || st == S3 || st == S5 || st == S6 || st == S7;
+  /* the string ended inside a group */
+  if (ph == 1) { a1 = n; b0 = b1 = n; c0 = c1 = n; }
+  else if (ph == 2) { b1 = n; c0 = c1 = n; }
+  else if (ph == 3) { c0 = c1 = n; }
+  else if (ph == 4) { c1 = n; }
+  g_a0 = a0; g_a1 = a1; g_b0 = b0; g_b1 = b1; g_c0 = c0; g_c1 = c1; g_lead = lead;
+  _Bool nonzero = lead <= PN_N;
+  /* index of the leading non-zero digit among the mantissa digits; 10^pm <= mantissa digits as a number with the point after nint digits */
+  long lead_idx = !nonzero ? 0 : lead < a1 ? (long)(lead - a0) : (long)nint + (long)(lead - b0);
+  g_pm = (long)nint - lead_idx - 1;
+  long E = g_E[c1];
+  o->lenient = first_ok && c1 == n;
+  o->strict = o->lenient && nint + nfrac >= 1 && (!has_e || nexp >= 1);
   o->neg = neg;
-  o->is_integer = st == S2;
+  o->is_integer = first_ok && a1 == n && nint >= 1;
   o->vsat = vsat;
-  o->V = V;
-  o->nonzero = lead;
-  o->pow10 = lead && lead_digit == 1 && !rest;
-  o->p = (int64_t)nint - (int64_t)lead_idx - 1 + (eneg ? -E : E);
+  o->V = g_P[a1];
+  o->nonzero = nonzero;
+  o->pow10 = nonzero && lead_digit == 1 && !rest;
+  o->p = g_pm + (eneg ? -E : E);
+  o->eneg = eneg; o->has_dot = has_dot; o->has_e = has_e;
   o->nint = nint; o->nfrac = nfrac; o->nexp = nexp;
+  o->f4_family = f4;
 }
 /* the property's range 1e-300 <= |v| <= 1e300 */
 static _Bool lit_above(const struct lit_info *o) { return o->nonzero && (o->p > 300 || (o->p == 300 && !o->pow10)); }
@@ -107,13 +161,12 @@ static _Bool lit_below(const struct lit_info *o) { return !o->nonzero || o->p < 
 static _Bool lit_int_fits(const struct lit_info *o) {
   return o->is_integer && !o->vsat && (o->neg ? o->V <= ((u128)1 << 63) : o->V < ((u128)1 << 64));
 }
-static int spec_ndigits(uint64_t m) { /* decimal digits of m > 0 */
-  int n = 1;
-  uint64_t lim = 10;
-  for (int i = 0; i < 19; i++) { if (m >= lim) n++; if (i < 18) lim *= 10; }
+static long spec_ndigits(uint64_t m) { /* decimal digits of m > 0 */
+  long n = 0;
+  for (int j = 1; j <= 20; j++) if (m >= g_lo[j]) n = j;
   return n;
 }
-/* m * 10^e <= FLT_MAX = 3.4028234664e38 for an integer m < 2^24: every float below 2^24 * 1e31 is far inside; from 1e32 up
+/* m * 10^e <= FLT_MAX = 3.4028234664e38 for an integer m < 2^24: every m * 10^31 is far inside; from 1e32 up
  * the value is a multiple of 1e32 and FLT_MAX / 1e32 = 3402823.46.. */
 static _Bool spec_fits_float(uint64_t m, int e) {
   if (m == 0 || e <= 31) return 1;
@@ -181,7 +234,7 @@ struct pn_case {
 };
 /* a string of n <= PN_N symbolic non-NUL characters in a heap block of exactly n + 1 bytes */
 static void pn_input(struct pn_case *c) {
-  size_t n = in_u8();
+  size_t n = in_u16();
   __CPROVER_assume(n <= PN_N);
   char *s = (char *)malloc(n + 1);
   __CPROVER_assume(s != 0);
@@ -190,6 +243,8 @@ static void pn_input(struct pn_case *c) {
   s[n] = 0;
   c->s = s;
   c->n = n;
+  g_str = s;
+  g_len = n;
   spec_scan(s, n, &c->li);
 }
 static void pn_call(struct pn_case *c, unsigned checks) {
@@ -217,6 +272,8 @@ static void pn_check_floating(struct pn_case *c, unsigned checks) {
   double got = t == NT_FLOAT ? (double)c->r.value_.asFloat : c->r.value_.asDouble;
   double ref = strtod(c->s, 0);
   double ag = fabs(got), ar = fabs(ref);
+  VERIF_OUT("result_bits", f64_bits(got));
+  VERIF_OUT("strtod_bits", f64_bits(ref));
   if (lit_above(li)) CHECK(isinf(got) || (ag >= 0.5e300 && ag >= ar / 2), "a value above 1e300 becomes infinity, never a finite value of the wrong magnitude");
   else if (lit_below(li)) CHECK(ag <= 2e-300, "a value below 1e-300 becomes zero, never a finite value of the wrong magnitude");
   else CHECK(isfinite(got) && ag >= ar / 2 && ag <= ar * 2, "a value within [1e-300, 1e300] parses to a finite number of the right magnitude");
@@ -238,17 +295,12 @@ static void pn_check_floating(struct pn_case *c, unsigned checks) {
     if (checks & CK_MAG) {
       CHECK((g_mf_m != 0) == li->nonzero, "the mantissa handed to make_float is zero exactly when the literal is zero");
       if (g_mf_m != 0 && li->nonzero)
-        CHECK((int64_t)spec_ndigits(g_mf_m) - 1 + g_mf_e == li->p + CANARY_P(li->p),
+        CHECK(spec_ndigits(g_mf_m) - 1 + (long)g_mf_e == li->p + CANARY_P(li->p),
               "mantissa x 10^exponent handed to make_float has the decimal magnitude of the literal (never a finite value of the wrong magnitude)");
     }
   }
 #endif
 }
-
-#endif /* UNIT_PN || UNIT_PNLOOP */
-
-/* ================================================================================================================ */
-#ifdef UNIT_PN
 
 /* ---- A. integers exact ----------------------------------------------------------------------------------------------- */
 void h_int_exact(void) {
@@ -278,8 +330,14 @@ void h_int_overflow_magnitude(void) {
   struct pn_case c;
   pn_input(&c);
   __CPROVER_assume(c.li.is_integer && !lit_int_fits(&c.li));
+#ifdef ONLY_F4_FAMILY
+  __CPROVER_assume(c.li.f4_family);
+#endif
+#ifdef NOT_F4_FAMILY
+  __CPROVER_assume(!c.li.f4_family);
+#endif
   pn_call(&c, CK_MAG);
-  COVER(!c.li.neg && c.li.V == ((u128)1 << 64) + 4);
+  COVER(!c.li.neg && c.li.V == ((u128)1 << 64) + 14);
   COVER(c.li.neg && c.li.V == ((u128)1 << 63) + 1);
   COVER(c.n == PN_N && c.s[0] == '9');
   pn_check_floating(&c, CK_MAG);
@@ -291,8 +349,13 @@ static unsigned lit_run(unsigned checks) {
   struct pn_case c;
   pn_input(&c);
   __CPROVER_assume(c.li.strict && !lit_int_fits(&c.li));
+  /* 2^64 .. 2^64+3 and every literal whose integer digits start that way: obligation int_overflow_magnitude */
+  __CPROVER_assume(!c.li.f4_family);
 #ifdef LIT_NONZERO
   __CPROVER_assume(c.li.nonzero); /* 0e999 -> inf is outside the stated range of C12 (v == 0): reported, not demanded */
+#endif
+#ifdef LIT_SHAPE /* a family: the exponent form of an integer mantissa, e.g. 1000000000e-309 */
+  __CPROVER_assume(!c.li.has_dot && c.li.has_e && c.li.nexp == 3);
 #endif
   pn_call(&c, checks);
   pn_check_floating(&c, checks);
@@ -318,7 +381,84 @@ void h_lit_float_fits(void) { unsigned m = lit_run(CK_FLOATFIT); LIT_COVERS(m); 
 void h_lit_zero_exit(void) { unsigned m = lit_run(CK_ZERO_EXIT); LIT_COVERS(m); }
 void h_lit_inf_exit(void) { unsigned m = lit_run(CK_INF_EXIT); LIT_COVERS(m); }
 
-/* ---- B'. a digit string longer than any power table: d followed by k zeros ----------------------------------------------- */
+/* ---- C. grammar ----------------------------------------------------------------------------------------------------------- */
+#ifdef CANARY_GRAMMAR
+#define CANARY_ACC(c) ((c).n == 2 && (c).s[0] == '7' && (c).s[1] == '7')
+#define CANARY_REJ(c) ((c).n == 2 && (c).s[0] == 'z' && (c).s[1] == 'z')
+#else
+#define CANARY_ACC(c) 0
+#define CANARY_REJ(c) 0
+#endif
+#if defined(CFG_nan) || defined(CFG_inf)
+/* with NaN / Infinity enabled the routine answers on the first letter after the sign; the default grammar is what is
+ * checked here, so that letter is excluded */
+static _Bool option_letter(const struct pn_case *c) {
+  char f = c->n > g_a0 ? c->s[g_a0] : 0;
+  return f == 'n' || f == 'N' || f == 'i' || f == 'I';
+}
+#define OPTION_LETTER(c) option_letter(&(c))
+#else
+#define OPTION_LETTER(c) 0
+#endif
+void h_grammar_accepts(void) {
+  struct pn_case c;
+  pn_input(&c);
+  __CPROVER_assume(c.li.strict);
+  pn_call(&c, 0);
+  COVER(c.n == PN_N && c.li.nfrac > 0 && c.li.nexp > 0);
+  COVER(c.li.nint == 0);
+  COVER(c.li.nfrac == 0 && c.li.nint > 0 && c.li.has_dot);
+  COVER(c.s[0] == '+');
+  CHECK(c.r.type_ != NT_INVALID && !CANARY_ACC(c), "every spelling of the number grammar is accepted");
+  CHECK(c.r.type_ <= NT_DOUBLE, "the result kind is one of the five");
+  pn_done(&c);
+}
+void h_grammar_rejects(void) {
+  struct pn_case c;
+  pn_input(&c);
+  __CPROVER_assume(!c.li.strict && !OPTION_LETTER(c));
+  pn_call(&c, 0);
+  COVER(c.n == 0);
+  COVER(c.n == PN_N);
+  COVER(c.li.lenient);
+  CHECK(c.r.type_ == NT_INVALID && !CANARY_REJ(c), "everything outside [+-]? (digits ('.' digits?)? | '.' digits) ([eE][+-]?digits)? is Invalid");
+  pn_done(&c);
+}
+/* the disagreement of h_grammar_rejects made precise: apart from empty digit groups (".", "1e", "1e+", ".e5") nothing else is accepted */
+void h_grammar_rejects_beyond_empty_digit_groups(void) {
+  struct pn_case c;
+  pn_input(&c);
+  __CPROVER_assume(!c.li.lenient && !OPTION_LETTER(c));
+  pn_call(&c, 0);
+  COVER(c.n == 0);
+  COVER(c.n == PN_N);
+  COVER(c.n > 3 && c.s[0] == '1' && c.s[1] == 'e' && c.s[2] == '1');
+  CHECK(c.r.type_ == NT_INVALID && !CANARY_REJ(c), "everything outside the grammar with possibly empty digit groups is Invalid");
+  pn_done(&c);
+}
+
+/* ---- E. the scan reads only up to the first NUL ---------------------------------------------------------------------------- */
+void h_scan_memory(void) {
+  struct pn_case c;
+  pn_input(&c);
+#ifdef CANARY_SCAN
+  /* the block ends before a NUL was seen whenever the string is "1234" */
+  if (c.n == 4 && c.s[0] == '1' && c.s[1] == '2' && c.s[2] == '3' && c.s[3] == '4') c.s[4] = '5';
+#endif
+  pn_call(&c, 0);
+  COVER(c.n == PN_N);
+  COVER(c.n == 0);
+  COVER(c.r.type_ == NT_INVALID && c.n > 3);
+  COVER(c.r.type_ == NT_DOUBLE);
+  CHECK(c.r.type_ <= NT_DOUBLE, "the result kind is one of the five");
+  CHECK(c.s[c.n] == 0, "the string is not modified");
+  pn_done(&c);
+}
+#endif /* UNIT_PN || UNIT_PNLOOP */
+
+/* ================================================================================================================ */
+#ifdef UNIT_PN
+/* ---- B'. a digit string longer than any power table: d followed by k zeros (concrete family, loops unwound) ------------- */
 #ifndef LONG_K
 #define LONG_K 700
 #endif
@@ -341,90 +481,13 @@ void h_long_zeros(void) {
   c.li.vsat = 1;
   c.li.nonzero = 1;
   c.li.pow10 = d == '1';
-  c.li.p = (int64_t)n - 1;
+  c.li.p = (long)n - 1;
   c.li.nint = (unsigned)n;
   pn_call(&c, CK_TABLE | CK_MAG);
   COVER(n == LONG_K + 1);
   COVER(n == 21);
   COVER(n == 301 && d == '1'); /* exactly 1e300 */
   pn_check_floating(&c, CK_TABLE | CK_MAG);
-  pn_done(&c);
-}
-
-/* ---- C. grammar ----------------------------------------------------------------------------------------------------------- */
-#ifdef CANARY_GRAMMAR
-#define CANARY_G(c) ((c).n == 2 && (c).s[0] == '7' && (c).s[1] == '7')
-#else
-#define CANARY_G(c) 0
-#endif
-#if defined(CFG_nan) || defined(CFG_inf)
-/* with NaN / Infinity enabled the routine answers on the first letter after the sign; the default grammar is what is
- * checked here, so that letter is excluded; the spellings themselves: h_nan_inf_spellings */
-#define OPTION_LETTER(c) ({ char f_ = (c).s[0] == '+' || (c).s[0] == '-' ? (c).s[1] : (c).s[0]; \
-                            f_ == 'n' || f_ == 'N' || f_ == 'i' || f_ == 'I'; })
-#else
-#define OPTION_LETTER(c) 0
-#endif
-void h_grammar_accepts(void) {
-  struct pn_case c;
-  pn_input(&c);
-  __CPROVER_assume(c.li.strict);
-  pn_call(&c, 0);
-  COVER(c.n == PN_N && c.li.nfrac > 0 && c.li.nexp > 0);
-  COVER(c.li.nint == 0);
-  COVER(c.li.nfrac == 0 && c.li.nint > 0 && c.s[c.n - 1] == '.');
-  COVER(c.s[0] == '+');
-  CHECK((c.r.type_ != NT_INVALID) != CANARY_G(c), "every spelling of the number grammar is accepted");
-  CHECK(c.r.type_ <= NT_DOUBLE, "the result kind is one of the five");
-  pn_done(&c);
-}
-void h_grammar_rejects(void) {
-  struct pn_case c;
-  pn_input(&c);
-  __CPROVER_assume(!c.li.strict && !OPTION_LETTER(c));
-  pn_call(&c, 0);
-  COVER(c.n == 0);
-  COVER(c.n == PN_N);
-  COVER(c.li.lenient);
-  CHECK(c.r.type_ == NT_INVALID, "everything outside [+-]? (digits ('.' digits?)? | '.' digits) ([eE][+-]?digits)? is Invalid");
-  pn_done(&c);
-}
-/* the disagreement of h_grammar_rejects made precise: apart from empty digit groups (".", "1e", "1e+", ".e5") nothing else is accepted */
-void h_grammar_rejects_beyond_empty_digit_groups(void) {
-  struct pn_case c;
-  pn_input(&c);
-  __CPROVER_assume(!c.li.lenient && !OPTION_LETTER(c));
-  pn_call(&c, 0);
-  COVER(c.n == 0);
-  COVER(c.n == PN_N);
-  COVER(c.n > 3 && c.s[0] == '1' && c.s[1] == 'e' && c.s[2] == '1');
-  CHECK((c.r.type_ == NT_INVALID) != CANARY_G(c) || c.n != 2 || c.s[0] != '7', "everything outside the grammar with possibly empty digit groups is Invalid");
-  pn_done(&c);
-}
-
-/* ---- E. the scan reads only up to the first NUL ---------------------------------------------------------------------------- */
-void h_scan_memory(void) {
-  struct pn_case c;
-#ifdef CANARY_SCAN
-  /* the block ends before the NUL whenever the string is the four characters "1234" */
-  size_t n = in_u8();
-  __CPROVER_assume(n <= PN_N);
-  char *s = (char *)malloc(n + 1);
-  __CPROVER_assume(s != 0);
-  for (unsigned i = 0; i < PN_N; i++) if (i < n) { char ch = in_char(); __CPROVER_assume(ch != 0); s[i] = ch; }
-  s[n] = (n == 4 && s[0] == '1' && s[1] == '2' && s[2] == '3' && s[3] == '4') ? '5' : 0;
-  c.s = s; c.n = n;
-  spec_scan(s, n, &c.li);
-#else
-  pn_input(&c);
-#endif
-  pn_call(&c, 0);
-  COVER(c.n == PN_N);
-  COVER(c.n == 0);
-  COVER(c.r.type_ == NT_INVALID && c.n > 3);
-  COVER(c.r.type_ == NT_DOUBLE);
-  CHECK(c.r.type_ <= NT_DOUBLE, "the result kind is one of the five");
-  CHECK(c.s[c.n] == 0, "the string is not modified");
   pn_done(&c);
 }
 #endif /* UNIT_PN */
